@@ -907,7 +907,8 @@ def common_meta(ctx):
         "concurrently connected clients use directory names that are pairwise different (also from each other's "
         "NAME.old) - otherwise their data is mixed: defect witness " + KEY_SAMEDIR,
         "every client ends with SEND_END; a client that disconnects inside or between messages makes `uftrace recv` "
-        "exit (modelled: the server dies; proved: C16_read_all_short_stream)",
+        "exit (modelled: the server dies; proved: C16_read_all_short_stream); connections are not reset (the "
+        "EPOLLERR/EPOLLHUP branch of handle_client_sock, which drops the client without reading, is not modelled)",
         "message length fields < 2^31 (receiver passes them as int); file and directory names without NUL and '/', "
         "shorter than PATH_MAX; the receiver's directory contains only directories made by recv itself",
         "default.opts is not part of the comparison (the receiver creates its own, the property lists trace, task, "
@@ -980,7 +981,7 @@ def run(ctx):
     objdir, exe = setup(ctx)
     rng = ctx.rng
     # 1. small in-process cases, full model comparison
-    nsmall = ctx.n(200, 4000)
+    nsmall = ctx.n(150, 4000)
     cases = [gen_case(rng, i, reuse=(i % 9 == 4)) for i in range(nsmall)]
     per = 200
     for off in range(0, len(cases), per):
